@@ -342,7 +342,14 @@ def c08_10(ctx):
     return out
 
 
+def c08_11(ctx):
+    """no derivation result is remembered under a key that leaves out the index / path / parent"""
+    from sa.memo import memo_obligation
+    return memo_obligation(ctx, ["hd"], "a child derived once would be returned for another index or path")
+
+
 OBLIGATIONS = [
+    ("C08.11", "MEMO", c08_11),
     ("C08.1", "RANGE accept-set", c08_1),
     ("C08.2", "RANGE partition", c08_2),
     ("C08.3", "LAYOUT+SIBLING", c08_3),
